@@ -50,20 +50,32 @@ def run(tier):
     # ---- contract on arbitrary unitaries (harness + evaluator-free: the mapped circuit's own U is compared) ----
     for what, M in ra.special_unitaries(rng, 60 if th else 12, 12):
         c = lw.Unitary(M)
-        mapped = itf.Reck().map(c)
         chk.count(key=what)
         fam = what.split()[0]
+        try:
+            mapped = itf.Reck().map(c)
+        except Exception as e:  # noqa: BLE001
+            chk.violation("raised", "Reck.map of %s raised %s: %s" % (what, type(e).__name__, e), script={"unitary": what, "matrix": [[repr(complex(x)) for x in row] for row in M]},
+                          sig={"clause": "raised", "family": fam})
+            continue
         for clause, detail in ra.check_mapping(c, mapped, what):
             chk.violation(clause, detail, script={"unitary": what, "matrix": [[repr(complex(x)) for x in row] for row in M]}, sig={"clause": clause, "family": fam})
     # heralded circuits (heralds must be kept; the argument must not change)
     from lightworks import qubit
-    for name, c in (("CNOT_Heralded", qubit.CNOT_Heralded()), ("herald in!=out", None)):
+    for name, c in (("CNOT_Heralded", qubit.CNOT_Heralded()), ("herald in!=out", None), ("crossing heralds", "x")):
         if c is None:
             c = lw.Circuit(4)
             c.bs(0, 1); c.bs(2, 3); c.ps(1, 0.4); c.bs(1, 2); c.herald(1, 0, 3); c.herald(0, 2)
+        elif c == "x":
+            c = lw.Circuit(5)
+            c.bs(0, 1); c.bs(2, 3); c.ps(1, 0.4); c.bs(1, 2); c.bs(3, 4); c.herald(1, 0, 3); c.herald(0, 2, 1); c.herald(2, 4, 0)
         before = (c.n_modes, c.heralds, c.U_full.copy())
-        mapped = itf.Reck().map(c)
         chk.count(key=name)
+        try:
+            mapped = itf.Reck().map(c)
+        except Exception as e:  # noqa: BLE001
+            chk.violation("raised", "Reck.map of the heralded circuit %s raised %s: %s" % (name, type(e).__name__, e), script={"circuit": name}, sig={"clause": "raised", "family": "heralded"})
+            continue
         if (c.n_modes, c.heralds) != before[:2] or np.abs(c.U_full - before[2]).max() > 0:
             chk.violation("argument_changed", "Reck.map changed %s" % name, script={"circuit": name}, sig={"clause": "argument_changed"})
         fs = ra.check_mapping(c, mapped, name)
